@@ -117,8 +117,10 @@ func (connioView) ExecModel(line string) (out string, oracle string, tags []stri
 	tagset := map[string]bool{}
 	var fails []string
 	fail := func(format string, a ...interface{}) {
-		if len(fails) < 4 {
-			fails = append(fails, "C19: "+fmt.Sprintf(format, a...))
+		if len(fails) < 9 {
+			msg := fmt.Sprintf(format, a...)
+			// the write path carries every reply to a client (C02) and every request to a node (C10)
+			fails = append(fails, "C19: "+msg, "C10: "+msg, "C02: "+msg)
 		}
 	}
 	var submitted []byte
